@@ -99,6 +99,8 @@ def judge(case, out):
             # custom mode raises from ceil(inf) instead of answering INFEASIBLE; no plan is presented, so C17 is silent
             return None
         return f"implementation raised {out.get('exc')}: {out.get('msg')}"
+    if out.get("mutated"):
+        return out["mutated"]
     st = out["status"]
     if st not in ("OPTIMAL", "FEASIBLE"):
         if st == "INFEASIBLE" and case["opt"] is not None and case["kind"] != "custom":
@@ -119,7 +121,7 @@ def judge(case, out):
         if not isinstance(cnt, int) or cnt < 0:
             return f"count {cnt!r} of pattern {pat} is not a non-negative integer"
         if case["kind"] == "custom":
-            if tuple(pat) not in set(map(tuple, case["columns"])):
+            if tuple(pat) not in set(map(tuple, case["columns"])) | set(map(tuple, case["init"])):
                 return f"pattern {pat} is not a column of the explicit column set"
         elif sum(s * a for s, a in zip(case["sizes"], pat)) > case["width"]:
             return f"pattern {pat} does not fit in the roll width {case['width']}"
@@ -227,8 +229,13 @@ EDGE_CASES = [
 def with_opt(case):
     """Attach the exact optimum (oracle side)."""
     d = case["demands"]
+    if "opt_known" in case:            # hardening families: the optimum is known by construction (no search at that size)
+        case["opt"] = case["opt_known"]
+        if case["kind"] == "custom":
+            case["init_opt"] = case.get("init_opt_known", case["opt_known"])
+        return case
     if case["kind"] == "custom":
-        case["opt"] = exact_min([tuple(c) for c in case["columns"]], d)
+        case["opt"] = exact_min([tuple(c) for c in case["columns"]] + [tuple(c) for c in case["init"]], d)
         case["init_opt"] = exact_min([tuple(c) for c in case["init"]], d)
     elif not d or not any(d):
         case["opt"] = 0
@@ -276,18 +283,93 @@ def _canon_num(x):
     return x
 
 
+def _fresh(x):
+    """An int equal to x but a different object (ints >= 257 are not interned): `is` differs, `==` holds."""
+    return int(str(int(x)))
+
+
+def _seq(xs, how):
+    xs = list(xs)
+    if how == "tuple":
+        return tuple(xs)
+    if how == "range" and len(xs) >= 1 and all(b - a == xs[1] - xs[0] for a, b in zip(xs, xs[1:])) and (len(xs) == 1 or xs[1] != xs[0]):
+        step = xs[1] - xs[0] if len(xs) > 1 else 1
+        return range(xs[0], xs[-1] + (1 if step > 0 else -1), step)
+    return xs
+
+
+def build_call(case):
+    """Arguments of the call in the form asked by case['form'] (hardening classes L / I / A):
+       demands: 'list' | 'tuple' | 'range' (when arithmetic);  sizes: 'list' | 'tuple' | 'float' (integer-valued floats, width too);
+       init: 'tuples' | 'lists' | 'tuple_of_lists';  fresh: pricing returns a freshly built tuple of freshly built ints on every call.
+    Returns (demands object, kwargs, snapshot) where snapshot() describes any modification of the caller's objects."""
+    import copy
+
+    form = case.get("form") or {}
+    kw = {}
+    if case["max_iter"] is not None:
+        kw["max_iter"] = case["max_iter"]
+    for opt in ("eps", "gap_tol"):
+        if form.get(opt) is not None:
+            kw[opt] = form[opt]
+    dem = [_fresh(d) for d in case["demands"]] if form.get("fresh") else list(case["demands"])
+    dem = _seq(dem, form.get("demands", "list"))
+    held = {"demands": dem}
+    if case["kind"] == "cs":
+        sizes, width = list(case["sizes"]), case["width"]
+        if form.get("sizes") == "float":
+            sizes, width = [float(x) for x in sizes], float(width)
+        elif form.get("fresh"):
+            sizes, width = [_fresh(x) for x in sizes], _fresh(width)
+        sizes = _seq(sizes, "tuple" if form.get("sizes") == "tuple" else "list")
+        kw.update(roll_width=width, piece_sizes=sizes)
+        held["piece_sizes"] = sizes
+    else:
+        cols = [tuple(c) for c in case["columns"]]
+        base = make_pricing(cols)
+        if form.get("fresh"):
+            def pricing(duals, _b=base):
+                c, rc = _b(duals)
+                return (None if c is None else tuple(_fresh(a) for a in c)), rc
+        else:
+            pricing = base
+        how = form.get("init", "tuples")
+        if how == "lists":
+            init = [list(c) for c in case["init"]]
+        elif how == "tuple_of_lists":
+            init = tuple(list(c) for c in case["init"])
+        else:
+            init = [tuple(c) for c in case["init"]]
+        if form.get("fresh"):
+            init = type(init)(type(c)(_fresh(a) for a in c) for c in init)
+        kw.update(pricing_fn=pricing, initial_columns=init)
+        held["initial_columns"] = init
+    if form.get("cb") is not None:     # progress call-back: "never" stops nothing (returns a truthy non-True value), k stops at its k-th call
+        calls = {"n": 0}
+
+        def on_progress(p, _c=calls, _k=form["cb"]):
+            _c["n"] += 1
+            if _k == "never":
+                return 1
+            return _c["n"] >= _k
+
+        kw.update(on_progress=on_progress, progress_interval=form.get("interval", 1))
+    before = copy.deepcopy({k: (list(v) if isinstance(v, range) else v) for k, v in held.items()})
+
+    def snapshot():
+        now = {k: (list(v) if isinstance(v, range) else v) for k, v in held.items()}
+        bad = [k for k in now if now[k] != before[k] or type(now[k]) is not type(before[k])]
+        return f"the caller's {', '.join(bad)} was modified by the call" if bad else None
+
+    return dem, kw, snapshot
+
+
 def run_impl(case):
     """Run solve_cg / solve_bp on the case; returns the canonical outcome dict, with the recorded LP trace."""
     import solvor.bp as bp
     import solvor.cg as cg
 
-    kw = {}
-    if case["max_iter"] is not None:
-        kw["max_iter"] = case["max_iter"]
-    if case["kind"] == "cs":
-        kw.update(roll_width=case["width"], piece_sizes=list(case["sizes"]))
-    else:
-        kw.update(pricing_fn=make_pricing(case["columns"]), initial_columns=[tuple(c) for c in case["init"]])
+    demands_obj, kw, snapshot = build_call(case)
     rec = {"lp": [], "node": []}
     if case["solver"] == "cg":
         orig = cg._solve_master_lp
@@ -299,7 +381,7 @@ def run_impl(case):
 
         cg._solve_master_lp = wrapped
         try:
-            res = guarded(cg.solve_cg, list(case["demands"]), timeout=TIMEOUT, **kw)
+            res = guarded(cg.solve_cg, demands_obj, timeout=TIMEOUT, **kw)
         finally:
             cg._solve_master_lp = orig
     else:
@@ -316,7 +398,7 @@ def run_impl(case):
 
         bp._solve_node_lp = wrapped_node
         try:
-            res = guarded(bp.solve_bp, list(case["demands"]), timeout=TIMEOUT, **kw)
+            res = guarded(bp.solve_bp, demands_obj, timeout=TIMEOUT, **kw)
         finally:
             bp._solve_node_lp = orig
     if res[0] == "hang":
@@ -324,8 +406,11 @@ def run_impl(case):
     if res[0] == "exc":
         return {"fail": "exc", "exc": res[1], "msg": res[2]}
     r = res[1]
+    mutated = snapshot()
     out = {"status": r.status.name, "objective": _canon_num(r.objective), "plan": _canon_plan(r.solution),
            "iterations": int(r.iterations), "evaluations": int(r.evaluations)}
+    if mutated:
+        out["mutated"] = mutated
     if rec["lp"]:
         cols, (x, y, obj) = rec["lp"][-1]
         out["pool"] = cols
@@ -430,7 +515,7 @@ def _bad(case):
 def shrink(case):
     """Greedy: drop a piece type / column, lower a demand, lower the width, while the oracle still complains."""
     cur = dict(case)
-    changed = True
+    changed = "opt_known" not in case    # an optimum known by construction does not survive shrinking
     while changed:
         changed = False
         cands = []
@@ -474,11 +559,27 @@ def _corpus():
             if o.get("outside_quantifier"):
                 continue   # documented behaviour outside C17's quantifier: kept for the record, not judged
             for c in (o["cases"] if "cases" in o else [o]):
-                out.append({k: v for k, v in c.items() if k in ("kind", "solver", "sizes", "width", "demands", "max_iter", "max_nodes", "columns", "init")})
+                out.append({k: v for k, v in c.items() if k in ("kind", "solver", "sizes", "width", "demands", "max_iter", "max_nodes", "columns", "init", "form", "opt_known", "init_opt_known", "no_coq", "family")})
     return out
 
 
 # ---------------------------------------------------------------------------------- the check
+KNOWN_GAP_TOL = "C17-bp-gap-tol-large-objective"
+
+
+def _strip_case(case):
+    return {k: v for k, v in case.items() if k not in ("opt", "init_opt")}
+
+
+def _in_gap_tol_class(case, out):
+    """solve_bp with the default gap_tol = 1e-6, status OPTIMAL, objective above the minimum by less than 1e-6 * objective (so the
+    objective is > 10^6): `proven` is a RELATIVE gap test, (obj - ceil(root LP)) / obj < gap_tol."""
+    if case["solver"] != "bp" or out.get("status") != "OPTIMAL" or (case.get("form") or {}).get("gap_tol") is not None:
+        return False
+    obj, opt = out.get("objective"), case.get("opt")
+    return isinstance(obj, int) and isinstance(opt, int) and obj > 10 ** 6 and 0 < obj - opt < 1e-6 * obj
+
+
 def _nontrivial(case, out):
     """Non-trivial: the run generated at least one column beyond the initial ones, or ended FEASIBLE above the LP bound,
     or (bp) entered the tree."""
@@ -519,6 +620,8 @@ def run(ctx: Ctx):
     n_cu = ctx.budget(400, 4000)
     cases = _corpus() + [dict(e) for e in EDGE_CASES]
     cases += [gen_cs(ctx.rng) for _ in range(n_cs)] + [gen_custom(ctx.rng) for _ in range(n_cu)]
+    from harness.props import C17_hard   # round-2 hardening families (labels, iterables, sizes, magnitudes, option sweeps, duplicates)
+    cases += C17_hard.extra_cases(ctx)
     results = pmap(_work, cases)
 
     cg_cases, cg_meta, bp_cases, bp_meta = [], [], [], []
@@ -536,6 +639,13 @@ def run(ctx: Ctx):
             continue
         if "status" in out and out["status"] in ("OPTIMAL", "FEASIBLE") and case["opt"] is not None:
             ctx.count("gap " + tag, f"{out['status']}+{out['objective'] - case['opt'] if isinstance(out['objective'], int) else '?'}")
+        if bad and _in_gap_tol_class(case, out):
+            fixed = any(f.get("id") == KNOWN_GAP_TOL and f.get("status") == "fixed" for f in ctx.known)
+            if not fixed:
+                ctx.count("known_gap_tol", tag)
+                ctx.known_hit(KNOWN_GAP_TOL, "solve_bp labels a plan one roll above the minimum OPTIMAL when the objective exceeds 1/gap_tol = 10^6 "
+                              f"(relative gap test), e.g. {_strip_case(case)} -> {out['objective']} rolls, minimum {case['opt']}")
+                continue
         if bad:
             small = shrink(case)
             c2, o2, b2 = _work(small)
@@ -548,6 +658,11 @@ def run(ctx: Ctx):
             ctx.nontriv(json.dumps({k: v for k, v in case.items() if k not in ("opt", "init_opt")}, sort_keys=True))
         ctx.sample({"input": {k: v for k, v in case.items() if k != "init_opt"},
                     "impl": {k: out.get(k) for k in ("status", "objective", "plan", "iterations")}}, 4)
+        if case.get("family"):
+            ctx.count("hard_family", case["family"])
+        if case.get("no_coq"):
+            ctx.count("oracle_only", case.get("family", tag))
+            continue
         if not _encodable(case, out):
             ctx.count("not_encodable", tag)
             continue
@@ -619,6 +734,7 @@ def run(ctx: Ctx):
             for lemma, (case, out) in certbad[:1]:
                 ctx.violation(f"certificate lemma {lemma}: the implementation says OPTIMAL but the proved dual certificate fails on the model's final duals",
                               {"case": {k: v for k, v in case.items() if k not in ("opt", "init_opt")}, "impl": out, "lemma": f"Cases/C17/{lemma}_*.v corr"}, no_input=True)
+    C17_hard.run_part(ctx)   # call sequences / aliasing, unmodelled options (eps, gap_tol, call-backs), event-directed search
     if (COQ / "C17" / "DeepBpTreeCorr.v").exists(): from harness.props import C17_deep; C17_deep.run_part(ctx)  # noqa: E701,E702  whole-tree model of solve_bp
 
 
